@@ -86,6 +86,10 @@ func schemaFrom(v any) *schema.Schema {
 			return schema.Number().Schema()
 		case "string":
 			return schema.String().Schema()
+		case "array":
+			return schema.Array().Schema()
+		case "object":
+			return schema.Object().Schema()
 		}
 	case map[string]any:
 		switch s["t"] {
